@@ -4,6 +4,7 @@ import (
 	"errors"
 	"fmt"
 	"net"
+	"os"
 	"strings"
 	"sync"
 	"testing"
@@ -36,6 +37,8 @@ type stormResult struct {
 	leak      string
 	actions   int
 	sameInst  int
+	tcpAllocs int
+	binds     int
 }
 
 func runStorm(t *testing.T, s *Storm) (res stormResult) {
@@ -316,7 +319,8 @@ func TestC18Storm(t *testing.T) {
 	}
 	if r.Replay != "" {
 		var s Storm
-		if err := vkit.LoadJSON(r.Replay, &s); err != nil || s.Rounds == 0 {
+		raw, _ := os.ReadFile(r.Replay)
+		if err := vkit.LoadJSON(r.Replay, &s); err != nil || s.Rounds == 0 || strings.Contains(string(raw), "\"tcp_storm\"") {
 			fmt.Println("REPLAY-NOT-MINE: not a storm case")
 
 			return
